@@ -35,23 +35,24 @@ func (m Mix) names() []string {
 
 // Gen produces the transactions of one block.
 type Gen struct {
-	W         *chain.World
-	R         *rand.Rand
-	Mix       Mix
-	MaxTx     int     // max txs per block (besides the feeder)
-	Hostile   float64 // fraction of adversarial variants
-	Walk      float64 // per-block relative price step (uniform in +-Walk/2)
-	JumpEvery int     // one +-30% jump every n blocks on average (0 = never)
-	FeeProb   float64 // probability a tx pays a fee
-	MultiTx   float64 // probability that an actor sends a further tx in the same block
-	Actors    []*chain.Actor
-	Pool3     bool
-	names     []string
-	total     int
+	W           *chain.World
+	R           *rand.Rand
+	Mix         Mix
+	MaxTx       int     // max txs per block (besides the feeder)
+	Hostile     float64 // fraction of adversarial variants
+	Walk        float64 // per-block relative price step (uniform in +-Walk/2)
+	JumpEvery   int     // one +-30% jump every n blocks on average (0 = never)
+	FeeProb     float64 // probability a tx pays a fee
+	TightLimits float64 // probability that a swap request gets a limit equal to its current quote
+	MultiTx     float64 // probability that an actor sends a further tx in the same block
+	Actors      []*chain.Actor
+	Pool3       bool
+	names       []string
+	total       int
 }
 
 func New(w *chain.World, seed int64, mix Mix) *Gen {
-	g := &Gen{W: w, R: rand.New(rand.NewSource(seed)), Mix: mix, MaxTx: 5, Hostile: 0.25, Walk: 0.06, JumpEvery: 60, Actors: w.Users, MultiTx: 0.15}
+	g := &Gen{W: w, R: rand.New(rand.NewSource(seed)), Mix: mix, MaxTx: 5, Hostile: 0.25, Walk: 0.06, JumpEvery: 60, Actors: w.Users, MultiTx: 0.15, TightLimits: 0.25}
 	g.names = mix.names()
 	for _, n := range g.names {
 		g.total += mix[n]
@@ -168,7 +169,12 @@ func (g *Gen) Op(name string, ac *chain.Actor, ctx sdk.Context) sdk.Msg {
 		case 2: // exact-out revisiting a pool
 			return &ammtypes.MsgSwapExactAmountOut{Sender: me, Routes: []ammtypes.SwapAmountOutRoute{{PoolId: 2, TokenInDenom: "uusdc"}, {PoolId: 2, TokenInDenom: "uelys"}}, TokenOut: chain.CoinI("uusdc", g.Amt(1e3, 1e9)), TokenInMaxAmount: math.NewInt(1e13)}
 		}
-		if r.Intn(2) == 0 {
+		switch r.Intn(4) {
+		case 0: // exact-out across two pools, both directions
+			return &ammtypes.MsgSwapExactAmountOut{Sender: me, Routes: []ammtypes.SwapAmountOutRoute{{PoolId: 1, TokenInDenom: "uatom"}, {PoolId: 2, TokenInDenom: "uusdc"}}, TokenOut: chain.CoinI("uelys", g.Amt(1e3, 2e9)), TokenInMaxAmount: math.NewInt(1e13)}
+		case 1:
+			return &ammtypes.MsgSwapExactAmountOut{Sender: me, Routes: []ammtypes.SwapAmountOutRoute{{PoolId: 2, TokenInDenom: "uelys"}, {PoolId: 1, TokenInDenom: "uusdc"}}, TokenOut: chain.CoinI("uatom", g.Amt(1e3, 5e8)), TokenInMaxAmount: math.NewInt(1e13)}
+		case 2:
 			return &ammtypes.MsgSwapExactAmountIn{Sender: me, Routes: []ammtypes.SwapAmountInRoute{{PoolId: 2, TokenOutDenom: "uusdc"}, {PoolId: 1, TokenOutDenom: "uatom"}}, TokenIn: chain.CoinI("uelys", g.Amt(1e3, 1e10)), TokenOutMinAmount: math.NewInt(1)}
 		}
 		return &ammtypes.MsgSwapExactAmountIn{Sender: me, Routes: []ammtypes.SwapAmountInRoute{{PoolId: 1, TokenOutDenom: "uusdc"}, {PoolId: 2, TokenOutDenom: "uelys"}}, TokenIn: chain.CoinI("uatom", g.Amt(1e3, 5e9)), TokenOutMinAmount: math.NewInt(1)}
@@ -242,6 +248,18 @@ func (g *Gen) Op(name string, ac *chain.Actor, ctx sdk.Context) sdk.Msg {
 			sl = chain.DecF(0.5 + r.Float64())
 		}
 		pid := uint64(1)
+		if r.Intn(8) == 0 {
+			// aim at the vault's lending cap: borrow the headroom +- a little (leverage 2 borrows the collateral)
+			p := a.StablestakeKeeper.GetParams(ctx)
+			cash := a.BankKeeper.GetBalance(ctx, a.AccountKeeper.GetModuleAddress("stablestake"), p.DepositDenom).Amount
+			head := p.TotalValue.MulRaw(9).QuoRaw(10).Sub(p.TotalValue.Sub(cash))
+			if head.IsPositive() && head.LT(math.NewInt(1e14)) {
+				d := p.TotalValue.MulRaw(int64(r.Intn(12000)) - 2000).QuoRaw(1_000_000)
+				if amt := head.Add(d); amt.IsPositive() {
+					return &lptypes.MsgOpen{Creator: me, CollateralAsset: "uusdc", CollateralAmount: amt, AmmPoolId: pid, Leverage: chain.Dec("2"), StopLossPrice: sl}
+				}
+			}
+		}
 		return &lptypes.MsgOpen{Creator: me, CollateralAsset: "uusdc", CollateralAmount: g.Amt(1e4, 2e10), AmmPoolId: pid, Leverage: chain.DecF(lev), StopLossPrice: sl}
 	case "levClose":
 		ps, _, _ := a.LeveragelpKeeper.GetPositionsForAddress(ctx, ac.Addr, nil)
@@ -253,8 +271,15 @@ func (g *Gen) Op(name string, ac *chain.Actor, ctx sdk.Context) sdk.Msg {
 		if r.Intn(2) == 0 {
 			la = la.QuoRaw(int64(2 + r.Intn(5)))
 		}
-		if g.hostile() && r.Intn(2) == 0 {
-			la = la.AddRaw(1)
+		if g.hostile() {
+			switch r.Intn(4) {
+			case 0:
+				la = la.AddRaw(1)
+			case 1: // all but dust, dust only
+				la = p.LeveragedLpAmount.SubRaw(int64(1 + r.Intn(3)))
+			case 2:
+				la = math.NewInt(int64(1 + r.Intn(3)))
+			}
 		}
 		if !la.IsPositive() {
 			return nil
@@ -493,6 +518,9 @@ func (g *Gen) Block() []*chain.TxRecord {
 			d := []string{"uusdc", "uatom", "uelys"}[g.R.Intn(3)]
 			fee = sdk.NewCoins(chain.CoinI(d, g.Amt(100, 1e6)))
 		}
+		if g.TightLimits > 0 && g.R.Float64() < g.TightLimits {
+			m = g.Tighten(m, ctx)
+		}
 		t := g.W.TxFee(ac, fee, m)
 		t.Tag = name
 		txs = append(txs, t)
@@ -508,6 +536,54 @@ func (g *Gen) Block() []*chain.TxRecord {
 		}
 	}
 	return txs
+}
+
+// Tighten replaces the limit of a swap request (minimum out / maximum in) by the amount the request
+// would settle for right now, with no or very little slack: the request is accepted, and whether it
+// can still be honoured at the end of the block depends on what else the block moves.
+func (g *Gen) Tighten(m sdk.Msg, ctx sdk.Context) (out sdk.Msg) {
+	out = m
+	defer func() {
+		if e := recover(); e != nil {
+			out = m
+		}
+	}()
+	cctx, _ := ctx.CacheContext()
+	k := g.W.App.AmmKeeper
+	slack := []int64{0, 0, 1, 10, 100}[g.R.Intn(5)] // in 1e-4
+	up := func(a math.Int) math.Int { return a.MulRaw(10000 + slack).QuoRaw(10000) }
+	down := func(a math.Int) math.Int { return a.MulRaw(10000 - slack).QuoRaw(10000) }
+	switch x := m.(type) {
+	case *ammtypes.MsgSwapExactAmountOut:
+		res, err := k.SwapExactAmountOut(cctx, x)
+		if err != nil || !res.TokenInAmount.IsPositive() {
+			return m
+		}
+		y := *x
+		y.TokenInMaxAmount = up(res.TokenInAmount)
+		return &y
+	case *ammtypes.MsgSwapExactAmountIn:
+		res, err := k.SwapExactAmountIn(cctx, x)
+		if err != nil || !res.TokenOutAmount.IsPositive() {
+			return m
+		}
+		y := *x
+		y.TokenOutMinAmount = down(res.TokenOutAmount)
+		return &y
+	case *ammtypes.MsgSwapByDenom:
+		res, err := k.SwapByDenom(cctx, x)
+		if err != nil || !res.Amount.Amount.IsPositive() {
+			return m
+		}
+		y := *x
+		if len(res.InRoute) > 0 {
+			y.MinAmount = sdk.NewCoin(x.DenomOut, down(res.Amount.Amount))
+		} else {
+			y.MaxAmount = sdk.NewCoin(x.DenomIn, up(res.Amount.Amount))
+		}
+		return &y
+	}
+	return m
 }
 
 // Free runs n blocks of seeded mixed traffic with a price walk; dtFn chooses the block time step.
